@@ -14,7 +14,7 @@ RULE = ("Texts: (a) grammar derivations (token lists) rendered with random insig
         "(c) token soups over a GraphQL-biased alphabet. Each text is parsed by parse / parse_value / parse_type "
         "under all 8 flag combinations (and as UTF-8 bytes) and compared with the verdict of an independent "
         "reference recogniser (TREE / REJECT / UNSPEC). Non-trivial: >= 4 significant tokens and, when rejected, "
-        "rejected at a token index >= 2; distinct = (token-kind sequence with keywords kept, entry).")
+        "rejected at a token index >= 2; distinct = (token-kind sequence with keywords kept, entry). Thorough tier adds a coverage-guided atheris/libFuzzer campaign per shard (py_gql instrumented, libFuzzer seed derived from VERIF_SEED, GraphQL token dictionary, seeded corpus on even shards and empty corpus on odd ones, inputs <= 160 bytes; findings are counted and kept, never fatal, so the campaign goes on) with the same oracle inside the target; its executions are part of `evaluations`, its distinct non-trivial inputs part of `distinct_nontrivial`.")
 ASSUMPTIONS = [
     "Reference recogniser written from the June-2018 grammar (vlib/ref/parser.py) is the oracle; self-checked "
     "against committed goldens (vlib/ref/goldens_parser.json).",
@@ -282,6 +282,27 @@ def check_deep(name, text, entry):
     except Exception as e:  # noqa
         return [("C01/deep-nesting/%s" % type(e).__name__, repr(e)[:200])]
     return []
+
+
+FUZZ_SEEDS = ["{ a }", "query Q($v: [Int!] = [1, 2]) { f(x: {k: $v, s: \"a\\u00e9\"}) @d(if: true) { ...F ... on T { b } } }",
+              "fragment F on T { a: b(c: 1.5e3, d: -0, e: ENUM, f: null) }", "\"\"\"desc\"\"\" type T implements I & J @d { f(a: Int = 1): [T!]! }",
+              "extend schema @d { query: Q }", "{ s(a: \"\"\"block \\\"\"\" string\"\"\") }", "union U = | A | B enum E { A B } input I { a: Int = 1 }",
+              "directive @d(a: Int) repeatable on FIELD | QUERY", "subscription S { a } mutation { b }"]
+
+
+def fuzz_one(text):
+    """target of the coverage-guided phase: the same oracle on one document text"""
+    vios, _ = check_text(text, entries=("doc",), with_bytes=False)
+    key, ntok = _token_key(text, "doc")
+    return vios, (key if key is not None and ntok >= 4 else None), {"text": text}
+
+
+def _atheris(ctx):
+    from vlib.fuzz.phase import atheris_phase
+    return atheris_phase("C01", 100000, FUZZ_SEEDS)(ctx)
+
+
+extra_phases = [("atheris", _atheris)]
 
 
 def replay(case):
